@@ -566,6 +566,10 @@ func RunMapInitExpr(ctx *Task, expr *ast.MapLiteral) *errchain.PlError {
 // }
 
 func RunIndexExprGet(ctx *Task, expr *ast.IndexExpr) *errchain.PlError {
+	if expr.Obj == nil { // `.[i]` has no object to index
+		return NewRunError(ctx, "index expression has no object", ast.WrapIndexExpr(expr).StartPos())
+	}
+
 	key := expr.Obj.Name
 
 	varb, err := ctx.GetKey(key)
@@ -941,6 +945,9 @@ func RunAssignmentExpr(ctx *Task, expr *ast.AssignmentExpr) *errchain.PlError {
 			case ast.TypeIdentifier:
 				ctx.SetVarb(e.Identifier().Name, r)
 			case ast.TypeIndexExpr:
+				if e.IndexExpr().Obj == nil { // `.[i]` has no object to assign into
+					return NewRunError(ctx, "index expression has no object", e.StartPos())
+				}
 				if varb, err := ctx.GetKey(e.IndexExpr().Obj.Name); err != nil {
 					return NewRunError(ctx, err.Error(), e.IndexExpr().Obj.Start)
 				} else {
@@ -957,6 +964,9 @@ func RunAssignmentExpr(ctx *Task, expr *ast.AssignmentExpr) *errchain.PlError {
 			case ast.TypeIdentifier:
 				ctx.SetVarb(e.Identifier().Name, vals[i])
 			case ast.TypeIndexExpr:
+				if e.IndexExpr().Obj == nil { // `.[i]` has no object to assign into
+					return NewRunError(ctx, "index expression has no object", e.StartPos())
+				}
 				if varb, err := ctx.GetKey(e.IndexExpr().Obj.Name); err != nil {
 					return NewRunError(ctx, err.Error(), e.IndexExpr().Obj.Start)
 				} else {
